@@ -178,7 +178,7 @@ def post(check, pairs, stats):
 CFG = {
     "id": "C09",
     "level": "proof",
-    "lean_modules": ["GeomV.C09.Proofs", "GeomV.C09.ProofsProj", "GeomV.C09.ProofsDatum", "GeomV.C09.ProofsPipeline", "GeomV.C09.ProofsInit", "GeomV.C09.ProofsInit2", "GeomV.C09.ProofsInit3", "GeomV.C09.ProofsInit4", "GeomV.C09.ProofsParse", "GeomV.C09.ProofsFold"],
+    "lean_modules": ["GeomV.C09.Proofs", "GeomV.C09.ProofsProj", "GeomV.C09.ProofsDatum", "GeomV.C09.ProofsPipeline", "GeomV.C09.ProofsInit", "GeomV.C09.ProofsInit2", "GeomV.C09.ProofsInit3", "GeomV.C09.ProofsInit4", "GeomV.C09.ProofsParse", "GeomV.C09.ProofsFold", "GeomV.C09.ProofsParse2"],
     "exe": "geomv_c09",
     "go_cmd": "c09",
     "stages": ["go:gen", "go:impl", "lean:judge"],
@@ -227,6 +227,8 @@ CFG = {
         # projString over a WHOLE definition string (the fold over the parameter list; proj4js' paramObj de-duplicates keys)
         "step_same", "fold_same", "dedupKV_nodup", "js_paramObj_eq", "go_projString_unfold", "js_projString_unfold", "finish_same",
         "go_projString_eq_js_dedup", "go_projString_eq_js", "repeated_key_differs",
+        # getDatum = datum.js (DatumSame); the two table lookups of DeriveConstants = deriveConstants.js
+        "go_getDatum_eq_js", "ell_nz", "dec_toNum_ne_zero", "go_deriveTables_eq_js",
     ]],
     "trusted_base": [
         "Lean 4.33.0 kernel; axioms of every theorem printed by #print axioms must be within {propext, Classical.choice, Quot.sound}",
